@@ -63,8 +63,9 @@ class ClassTr:
     """Translates methods of one class (or module-level functions when cls is None)."""
 
     def __init__(self, tree, cls, prefix, ctor_params=None, methods=(), drop_args=('rtol', 'tol'),
-                 known=None, skip_attrs=(), const_attrs=None, extra_np1=None, delegates=None, extra_sources=()):
+                 known=None, skip_attrs=(), const_attrs=None, extra_np1=None, delegates=None, extra_sources=(), ndim=None):
         self.tree = tree
+        self.ndim = ndim                     # None | 'scalar' | 'array': which side of `if x.ndim == 0:` is translated
         self.cls = cls
         self.prefix = prefix
         self.methods = list(methods)
@@ -259,6 +260,8 @@ class ClassTr:
                 return self.expr(n.args[0], env)
             if f.attr == 'power' and len(n.args) == 2 and not kw:
                 return self.power(n.args[0], n.args[1], env)
+            if f.attr == 'square' and len(n.args) == 1 and not kw:
+                return '(%s ^ 2)' % self.expr(n.args[0], env)
             if f.attr in NP1 and len(n.args) == 1 and not kw:
                 return '(%s %s)' % (NP1[f.attr], self.expr(n.args[0], env))
             if f.attr == 'where' and len(n.args) == 3 and not kw:
@@ -328,6 +331,16 @@ class ClassTr:
     def body(self, stmts, env, lets):
         """Translate a straight-line body; returns the Coq expression of the returned value."""
         for i, st in enumerate(stmts):
+            if isinstance(st, ast.Assign) and len(st.targets) == 1 and isinstance(st.targets[0], ast.Subscript):
+                # masked self-assignment  x[x == c] = e   (element-wise: x := if x = c then e else x)
+                t = st.targets[0]
+                if isinstance(t.value, ast.Name) and t.value.id in env and isinstance(t.slice, ast.Compare) \
+                        and isinstance(t.slice.left, ast.Name) and t.slice.left.id == t.value.id:
+                    nm = ident(t.value.id)
+                    lets.append('let %s := if %s then %s else %s in' % (nm, self.cond(t.slice, env), self.expr(st.value, env), env[t.value.id]))
+                    env[t.value.id] = nm
+                    continue
+                raise Unsupported('assignment ' + ast.unparse(st)[:70])
             if isinstance(st, ast.Assign) and len(st.targets) == 1:
                 t = st.targets[0]
                 if isinstance(t, ast.Name):
@@ -371,6 +384,33 @@ class ClassTr:
                 lets.append('let %s := (fun %s => %s %s) in' % (nm, ' '.join(ident(a) for a in args), ' '.join(l2), r))
                 env[st.name] = '@local:' + nm
                 continue
+            if isinstance(st, ast.Assert):
+                # shape-consistency guard (`assert a.shape == b.shape and ...`): raises, never changes a value
+                if all(isinstance(x, ast.Attribute) and x.attr == 'shape' for x in ast.walk(st.test)
+                       if isinstance(x, ast.Attribute)) and not any(isinstance(x, ast.Call) for x in ast.walk(st.test)):
+                    continue
+                raise Unsupported('assert ' + ast.unparse(st.test)[:60])
+            if isinstance(st, ast.If) and self.ndim is not None and isinstance(st.test, ast.Compare) \
+                    and ast.unparse(st.test).endswith(('.ndim == 0', '.size == 1', '.shape == ()')) and isinstance(st.test.left, ast.Attribute) \
+                    and isinstance(st.test.left.value, ast.Name) and st.test.left.value.id in env:
+                # 0-d (scalar input) versus array input: the spec item says which side it models
+                branch = st.body if self.ndim == 'scalar' else st.orelse
+                if not branch:
+                    continue
+                for sub in branch:
+                    if not isinstance(sub, (ast.Assign, ast.If)):
+                        raise Unsupported('statement in ndim branch ' + ast.unparse(sub)[:60])
+                self.body_nr(branch, env, lets)
+                continue
+            if isinstance(st, ast.If) and not st.orelse and len(st.body) == 1 and isinstance(st.body[0], ast.Assign) \
+                    and len(st.body[0].targets) == 1 and isinstance(st.body[0].targets[0], ast.Name) \
+                    and st.body[0].targets[0].id in env and isinstance(st.test, ast.Compare) and 'isinstance' not in ast.unparse(st.test):
+                # conditional overwrite of an existing scalar:  if c: x = e   ->  x := if c then e else x
+                tn = st.body[0].targets[0].id
+                nm = ident(tn)
+                lets.append('let %s := if %s then %s else %s in' % (nm, self.cond(st.test, env), self.expr(st.body[0].value, env), env[tn]))
+                env[tn] = nm
+                continue
             if isinstance(st, ast.If):
                 # `if not isinstance(x, float): x = x.astype(float)` style identities
                 src = ast.unparse(st)
@@ -390,6 +430,15 @@ class ClassTr:
                 return self.expr(v, env)
             raise Unsupported('statement ' + ast.unparse(st)[:70])
         raise Unsupported('no return statement')
+
+    def body_nr(self, stmts, env, lets):
+        """Translate a statement list that contains no `return` (a branch spliced into the enclosing body)."""
+        sentinel = ast.Return(value=ast.Constant(value=0))
+        for st in stmts:
+            for x in ast.walk(st):
+                if isinstance(x, ast.Return):
+                    raise Unsupported('return inside a branch')
+        self.body(list(stmts) + [sentinel], env, lets)
 
     def method(self, name):
         sup = name.startswith('super_')
